@@ -51,6 +51,12 @@ def run(ctx):
     s1b(ctx, F)
     s2(ctx, F)
     purity(ctx, F)
+    # S7 = C02.R1-R3: a move list query plays and takes back every move it tests - with a wrong successor (a right that should have
+    # been lost, a square left occupied) the list contains moves whose play/take-back does not restore the position
+    from . import p02, p17
+    before, nv = len(ctx.instances), len(ctx.violations)
+    p02.r123(ctx, F)
+    p17.relabel(ctx, before, nv, "C03.S7")
 
 
 def mirror(ctx, F):
